@@ -209,6 +209,10 @@ func scenarios(w string, r *simctl.Rand, thorough bool) []scenario {
 	}
 	// the overlapping item passes a sample when min(P1, P2) >= alpha: half of
 	// its failing samples fail through P2 only (BuildMatrix)
+	// ... and when ALL of them do, the item's Q-values stay uniform: only the
+	// pass-count criterion can reject it, at any pass count down to 0
+	add("overlapping-never-passes-uniform-q", ItemDirective{Item: 3, PassCount: 0, P2Only: true})
+	add("overlapping-few-passes-uniform-q", ItemDirective{Item: 3, PassCount: r.Intn(th), P2Only: true})
 	add("overlapping-threshold-1", ItemDirective{Item: 3, PassCount: th - 1})
 	add("overlapping-threshold", ItemDirective{Item: 3, PassCount: th})
 	// passing samples whose P-value equals alpha exactly (a result passes when
@@ -510,6 +514,21 @@ func Plan(prop, tier string, seed uint64) []RunConfig {
 				}
 				out = append(out, RunConfig{Prop: prop, Workflow: w, Workers: W, Policy: genPolicy(r, estSteps(w, W)),
 					Stream: prfStream(r), Chunk: ch, Fault: FaultSpec{Kind: "none"}, Runners: sp, ReadYield: 1, Note: "slow-device-and-slow-tests"})
+			}
+		}
+		// a generator that self-checks: its first Read runs a Fast detection of
+		// its own before delivering (re-entrancy from inside a source read)
+		nself := 3
+		if thorough {
+			nself = 100
+		}
+		for _, w := range []string{WPeriodFast, WPowerOnFast, WFactoryFast} {
+			scs := scenarios(w, r, false)
+			for i := 0; i < nself; i++ {
+				W := workerChoices[r.Intn(len(workerChoices))]
+				out = append(out, RunConfig{Prop: prop, Workflow: w, Workers: W, Policy: genPolicy(r, estSteps(w, W)),
+					Stream: prfStream(r), Chunk: ChunkSpec{Kind: "full", Reentrant: []string{WPeriodFast, w}[r.Intn(2)]}, Fault: FaultSpec{Kind: "none"},
+					Runners: scs[r.Intn(len(scs))].spec, ReadYield: 1, Note: "self-checking-source"})
 			}
 		}
 		// a polled device: small reads, every other Read returns (0, nil); more
